@@ -460,3 +460,14 @@ func sortedKeys[V any](m map[string]V) []string {
 
 // CaseIndex returns the index of the case being run within its family.
 func (c *Ctx) CaseIndex() int { return c.curIndex }
+
+// ViolationsSoFar returns the signatures of the violations reported by this worker so far.
+func (c *Ctx) ViolationsSoFar() []string {
+	c.mu.Lock()
+	defer c.mu.Unlock()
+	out := make([]string, 0, len(c.st.Violations))
+	for _, v := range c.st.Violations {
+		out = append(out, v.Sig)
+	}
+	return out
+}
